@@ -39,6 +39,7 @@ class Session:
         self.complex_ = complex_
         self.rng = rng or random.Random(0)
         self.any_complex = False
+        self.tol = TOL  # (numeric runs in single precision set a wider one)
         self.obl = []  # sym: (name, formula) ; num: (name, ok, lhs, rhs)
         self.canaries = []
         self.structural = []  # (name, detail) structural violations
@@ -83,7 +84,7 @@ class Session:
             self.lhs_terms[name] = lhs
         else:
             l, r = complex(_tonum(lhs)), complex(_tonum(rhs))
-            ok = abs(l - r) <= TOL * max(1.0, abs(l), abs(r))
+            ok = abs(l - r) <= self.tol * max(1.0, abs(l), abs(r))
             self.obl.append((name, ok, l, r))
             self.lhs_terms[name] = l
 
@@ -201,12 +202,19 @@ def run_case(body, spec, complex_=False, validate=False, max_paths=2000, seed=0,
     """run_case_inner under a wall-clock limit: a case that exceeds it is *inconclusive*"""
     import signal
     old = signal.signal(signal.SIGALRM, _on_alarm)
-    signal.setitimer(signal.ITIMER_REAL, wall_limit)
+    signal.setitimer(signal.ITIMER_REAL, wall_limit, 10)  # repeats: a time-out swallowed by a ctypes callback fires again
     try:
         return run_case_inner(body, spec, complex_, validate, max_paths, seed, query_timeout_ms, want_sample)
     except Exception as e:  # a failure of the machinery itself: harness error for this case, never a crash of the run
         zt._CTL[0] = None
         res = CaseResult()
+        if "CaseTimeout" in f"{type(e).__name__}: {e}":
+            # the alarm fired inside a ctypes callback of z3, which re-raises it wrapped (ctypes.ArgumentError): still a time-out
+            res.inconclusive = 1
+            res.complete = False
+            res.notes["case-timeout"] = 1
+            res.timeouts = [_short(spec)[:300]]
+            return res
         res.harness_errors.append(f"machinery exception {type(e).__name__}: {e} on {_short(spec)[:300]}")
         return res
     except CaseTimeout:
@@ -273,6 +281,10 @@ def run_case_inner(body, spec, complex_=False, validate=False, max_paths=2000, s
             feas = c.solver.check()
         res.queries += 1
         if feas == z3.unsat:
+            if getattr(c, "unknown", 0):
+                # entered through a branch whose feasibility query had timed out: the path does not exist after all
+                res.notes["infeasible-path-after-undecided-branch"] = res.notes.get("infeasible-path-after-undecided-branch", 0) + 1
+                continue
             res.harness_errors.append("vacuous path: assumptions+path condition unsatisfiable")
             continue
         if S.structural:
@@ -488,7 +500,9 @@ def _replay_and_record(res, body, spec, complex_, c, S, kind, name, detail, valu
             values = dict(Sn.values)
             name = name + ":complex-replay"
         else:
+            # the path ended in the term layer without a verdict on machine numbers: nothing was decided for this case
             res.notes["cast-trap-not-observable-in-replay"] = res.notes.get("cast-trap-not-observable-in-replay", 0) + 1
+            res.inconclusive += 1
             return
     reproduced = False
     if kind == "value":
@@ -513,6 +527,10 @@ def _replay_and_record(res, body, spec, complex_, c, S, kind, name, detail, valu
     }
     if reproduced:
         res.violations.append(rec)
+    elif getattr(c, "unknown", 0):
+        # a branch on this path was taken although its feasibility query timed out (over-approximation): the path may not exist
+        res.inconclusive += 1
+        res.notes["finding-on-path-of-undecided-feasibility"] = res.notes.get("finding-on-path-of-undecided-feasibility", 0) + 1
     else:
         res.harness_errors.append(f"non-reproducing {kind} counterexample {name} on {_short(spec)}")
 
@@ -543,6 +561,10 @@ def _replay_structural(res, body, spec, complex_, c, S):
                "reproduced": name in got or err is not None}
         if rec["reproduced"]:
             res.violations.append(rec)
+        elif getattr(c, "unknown", 0):
+            # (a branch on this path was taken although its feasibility query timed out: the path may not exist)
+            res.inconclusive += 1
+            res.notes["finding-on-path-of-undecided-feasibility"] = res.notes.get("finding-on-path-of-undecided-feasibility", 0) + 1
         else:
             res.harness_errors.append(f"non-reproducing structural counterexample {name} on {_short(spec)}")
 
